@@ -50,6 +50,14 @@ impl<V, G> HnswIndex<V, G> {
         })
     }
 
+    pub fn vector_store(&self) -> &V {
+        &self.vector_store
+    }
+
+    pub fn graph_store(&self) -> &G {
+        &self.graph_store
+    }
+
     fn random_level(&self) -> u8 {
         let mut rng = rand::thread_rng();
         let ml = 1.0 / (self.params.m as f64).ln();
